@@ -290,7 +290,7 @@ func c13Random(c *Case) {
 
 func c13Cases(tier string) int {
 	if tier == "thorough" {
-		return 2 + 100000
+		return 2 + 300000
 	}
 	return 2 + 10000
 }
